@@ -530,3 +530,97 @@ def alphabets_compared_by_value(ctx, rel, rule, min_sites=0):
                    c.lineno)
     ctx.floor(f"{rule}:{rel}", n, min_sites)
     return n
+
+
+_ONE_SHOT_CALLS = {"map", "filter", "zip", "iter", "reversed", "enumerate"}
+
+
+def _one_shot(e):
+    """an expression whose value can be iterated once only (a generator, a lazy builtin iterator, an itertools object)"""
+    if isinstance(e, ast.GeneratorExp):
+        return True
+    if isinstance(e, ast.Call):
+        cn = call_name(e) or ""
+        return cn in _ONE_SHOT_CALLS or cn.startswith("itertools.") or cn in ("csv.reader",)
+    return False
+
+
+def _exclusive(fn, a, b):
+    """do the nodes a and b sit in different arms of one if / else (so that at most one of them runs)"""
+    for st in ast.walk(fn):
+        if isinstance(st, ast.If):
+            in_body = lambda x: any(y is x for s_ in st.body for y in ast.walk(s_))
+            in_else = lambda x: any(y is x for s_ in st.orelse for y in ast.walk(s_))
+            if (in_body(a) and in_else(b)) or (in_body(b) and in_else(a)):
+                return True
+        if isinstance(st, ast.IfExp):
+            ib = lambda x: any(y is x for y in ast.walk(st.body))
+            ie = lambda x: any(y is x for y in ast.walk(st.orelse))
+            if (ib(a) and ie(b)) or (ib(b) and ie(a)):
+                return True
+    return False
+
+
+def iterator_locals_consumed_twice(fn):
+    """[(name, binding, second use)] for locals bound to a one-shot iterator that may be read twice on one run: two reads that
+    are not in different arms of an if, or a read inside a loop that the binding is outside of (`try: f(it) except: g(it)` -
+    the handler finds the iterator exhausted)"""
+    out = []
+    binds = {}
+    for st in ast.walk(fn):
+        if isinstance(st, ast.Assign) and len(st.targets) == 1 and isinstance(st.targets[0], ast.Name):
+            binds.setdefault(st.targets[0].id, []).append(st)
+        elif isinstance(st, ast.Name) and isinstance(st.ctx, ast.Store):
+            binds.setdefault(st.id, [])
+    stores = {}
+    for x in ast.walk(fn):
+        if isinstance(x, ast.Name) and isinstance(x.ctx, (ast.Store, ast.Del)):
+            stores[x.id] = stores.get(x.id, 0) + 1
+    for nm, bs in binds.items():
+        shots = [b for b in bs if _one_shot(b.value)]
+        if not shots:
+            continue
+        uses = [x for x in ast.walk(fn) if isinstance(x, ast.Name) and x.id == nm and isinstance(x.ctx, ast.Load)]
+        bad = None
+        for i, u in enumerate(uses):
+            for v in uses[i + 1:]:
+                if not _exclusive(fn, u, v):
+                    bad = v
+                    break
+            if bad is not None:
+                break
+        if bad is None:
+            for lp in ast.walk(fn):
+                if isinstance(lp, (ast.For, ast.While)) and not any(any(y is b for y in ast.walk(lp)) for b in shots):
+                    inner = [u for u in uses if any(y is u for s_ in lp.body for y in ast.walk(s_))]
+                    if inner:
+                        bad = inner[0]
+                        break
+        if bad is not None:
+            out.append((nm, shots[0], bad))
+    return out
+
+
+def iterators_consumed_once(ctx, rel, rule):
+    """a local bound to a generator / lazy iterator is read at most once per run of the function (a second reader - the fallback
+    in an `except`, a second pass - sees it exhausted and silently works on nothing)"""
+    # the rule must see its own example on every run (it has no instance in a healthy module)
+    probe = ast.parse("def f(xs):\n    it = (x.upper() for x in xs)\n    try:\n        return enc(it)\n    except ValueError:\n        return enc2(it)\n").body[0]
+    if not iterator_locals_consumed_twice(probe):
+        raise AnalysisError(f"{rule}: the lint does not see its built-in example")
+    s = ctx.src(rel)
+    n = 0
+    for q, f in s.funcs.items():
+        if any(q != q2 and q.startswith(q2 + ".") for q2 in s.funcs):
+            continue
+        hits = iterator_locals_consumed_twice(f)
+        lazy = sorted({t.targets[0].id for t in ast.walk(f) if isinstance(t, ast.Assign) and len(t.targets) == 1 and isinstance(t.targets[0], ast.Name)
+                       and _one_shot(t.value)})
+        if not lazy and not hits:
+            continue
+        n += 1
+        first = hits[0] if hits else None
+        ctx.ob(rule, rel, q, "one-shot iterators read once: " + (", ".join(lazy) or "none bound"), not hits,
+               (f"`{first[0]}` is a one-shot iterator (bound at line {first[1].lineno}) and may be read a second time at line {first[2].lineno}: "
+                "the second reader finds it exhausted" if first else ""), f.lineno, nontrivial=bool(lazy))
+    return n
